@@ -10,7 +10,7 @@ from defusedxml.sax import make_parser
 from codemodder.codemods.base_transformer import BaseTransformerPipeline
 from codemodder.codetf import Change, ChangeSet
 from codemodder.context import CodemodExecutionContext
-from codemodder.diff import create_diff
+from codemodder.diff import create_diff, source_lines
 from codemodder.file_context import FileContext
 from codemodder.logging import logger
 from codemodder.result import Result
@@ -232,10 +232,8 @@ class XMLTransformerPipeline(BaseTransformerPipeline):
 
             new_lines = output_file.readlines()
             # TODO there's a failure potential here for very large files
-            original_lines = (
-                file_context.file_path.read_bytes()
-                .decode("utf-8")
-                .splitlines(keepends=True)
+            original_lines = source_lines(
+                file_context.file_path.read_bytes().decode("utf-8")
             )
             diff = create_diff(
                 original_lines,
